@@ -391,3 +391,64 @@ func SelfTest() error {
 	}
 	return nil
 }
+
+// ---- extended coordinates (fast path; checked against the affine law in SelfTestFast) ----
+
+// Ext is a point in extended twisted Edwards coordinates (a = -1).
+type Ext struct{ X, Y, Z, T *big.Int }
+
+var twoD = func() *big.Int { return mod(new(big.Int).Lsh(D, 1)) }()
+
+// ToExt converts an affine point.
+func (p Pt) ToExt() Ext {
+	return Ext{new(big.Int).Set(p.X), new(big.Int).Set(p.Y), big.NewInt(1), mul(p.X, p.Y)}
+}
+
+// Add is the unified addition (complete on edwards25519).
+func (p Ext) Add(q Ext) Ext {
+	a := mul(sub(p.Y, p.X), sub(q.Y, q.X))
+	b := mul(add(p.Y, p.X), add(q.Y, q.X))
+	c := mul(mul(p.T, twoD), q.T)
+	d := mul(mul(p.Z, two), q.Z)
+	e := sub(b, a)
+	f := sub(d, c)
+	g := add(d, c)
+	h := add(b, a)
+	return Ext{mul(e, f), mul(g, h), mul(f, g), mul(e, h)}
+}
+
+// Mul is double-and-add.
+func (p Ext) Mul(k *big.Int) Ext {
+	r := Identity().ToExt()
+	for i := k.BitLen() - 1; i >= 0; i-- {
+		r = r.Add(r)
+		if k.Bit(i) == 1 {
+			r = r.Add(p)
+		}
+	}
+	return r
+}
+
+// Affine converts back.
+func (p Ext) Affine() Pt {
+	zi := inv(p.Z)
+	return Pt{mul(p.X, zi), mul(p.Y, zi)}
+}
+
+// SelfTestFast checks the extended-coordinate arithmetic against the affine law.
+func SelfTestFast() error {
+	b := Base()
+	k, _ := new(big.Int).SetString("123456789012345678901234567890123456789012345678901234567890", 10)
+	if !b.ToExt().Mul(k).Affine().Equal(b.Mul(k)) {
+		return errors.New("refx: extended and affine scalar multiplication disagree")
+	}
+	for i, l := range LowOrder() {
+		if !b.ToExt().Add(l.ToExt()).Affine().Equal(b.Add(l)) {
+			return fmt.Errorf("refx: extended and affine addition disagree for low-order point %d", i)
+		}
+		if !l.ToExt().Add(l.ToExt()).Affine().Equal(l.Add(l)) {
+			return fmt.Errorf("refx: extended and affine doubling disagree for low-order point %d", i)
+		}
+	}
+	return nil
+}
